@@ -41,6 +41,7 @@ fn eval(op: &str, args: &[&str]) -> Option<Vec<String>> {
         "addrrt" => c16::addrrt(args),
         "envelope" => c16::envelope(args),
         "envjson" => c16::envjson(args),
+        "envhdrs" => c16::envhdrs(args),
         "mailcmd" => c16::mailcmd(args),
         "argv" => c16::argv(args),
         "envcheck" => c16::envcheck(args),
